@@ -271,8 +271,8 @@ theorem resolveContainerT_inv (g : Cfg) (G : List Sel → Prop) (hk : KeysNodupO
   | succ fuel ih =>
     intro serial st rt id sels path s hG
     simp only [resolveContainerT]
-    have hrec : ∀ a b i ss p s, G ss → Inv p (resolveContainerT g false fuel a b i ss p s) :=
-      fun a b i ss p s h => ih false a b i ss p s h
+    have hrec : ∀ a b i ss p s, G ss → Inv p (resolveContainerT g g.nestedSerial fuel a b i ss p s) :=
+      fun a b i ss p s h => ih _ a b i ss p s h
     have hkk := hk rt (fuel + 1) st sels hG
     have hd : (occsOf g rt (fuel + 1) st sels).Pairwise
         (fun x y => ∀ q, Region path x.key q → Region path y.key q → False) := by
